@@ -29,7 +29,7 @@ RULE = ("generated documents: 1-3 pages of positioned text runs (horizontal line
         "latin-1, cp1252-only, BMP and astral characters and multi-character values; font names and form/image "
         "XObject names drawn from the same alphabet; nested form XObjects, image XObjects, lines, rectangles, curves, "
         "g/rg/k colours; crossed with LAParams (None, default, boxes_flow None, detect_vertical, all_texts, margins), "
-        "output type text|xml, sink StringIO|BytesIO+codec (utf-8, utf-16, utf-16-le, latin-1, cp1252), strip_control. "
+        "output type text|xml, sink StringIO|BytesIO+codec (utf-8, utf-16, utf-16-le, latin-1, cp1252, utf-32, utf-8-sig; the codecs with a byte-order mark show a second mark as a stray U+FEFF), strip_control. "
         "A case is one (document, laparams, output type, sink, strip) evaluation; non-trivial when the document has at "
         "least one glyph and at least one special (XML-special, control or non-ASCII) character in a text or a name")
 TRUSTED_BASE = [
@@ -39,7 +39,9 @@ TRUSTED_BASE = [
     "character (sampling)",
     "tools/translate/gen_c11.py regenerates the CONTROL class, the XML element templates (which arguments go through "
     "enc) and bbox2str from pdfminer/converter.py, pdfminer/utils.py on every run",
-    "number formatting (%.3f, %d, str(colour)) is opaque: formatted by the harness with Python and compared textually",
+    "number formatting: '%.3f' / '%d' / utils.bbox2str (regenerated) are modelled in Lean on exact values and tied to "
+    "Python on the numbers of every generated tree and on rounding-tie probes; the model consumes the formatted strings; "
+    "str(colour) and the pts join stay opaque (alphabet checked per tree)",
     "Python codecs (utf-8, utf-16, latin-1, cp1252) are abstract: an incremental encoder with a left-inverse decoder",
     "xml.etree.ElementTree (expat) as the independent XML well-formedness oracle; the shared PDF writer",
     "html.escape as shipped with CPython (its five replacements are modelled by hand and correspondence-checked)",
@@ -62,6 +64,12 @@ STATEMENT_STATUS: Dict[str, str] = {
     "esc_unesc_attr": "proved: attribute position incl. strip_control, TAB/LF/CR as references; no raw \" or <",
     "esc_unesc_text": "proved: character data position incl. strip_control, CR as reference; no raw <",
     "strip_legal": "proved: after CONTROL stripping (regenerated class) XML chars + C0 controls are XML chars",
+    "C11_fmt_f3_plain": "proved: '%.3f' model output is digits/-/. for every signed rational (formatter tied to Python "
+                        "by driver ops fmt.* incl. rounding ties)",
+    "C11_fmt_d_plain": "proved: '%d' model output is digits/- for every signed rational",
+    "C11_bbox2str_plain": "proved over the REGENERATED utils.bbox2str",
+    "C11_numeric_items_ok": "proved: items whose numeric fields come from the formatters meet the Plain hypotheses of "
+                            "C11_xml_wf for all numbers (remaining opaque: str(colour), pts join, page id)",
     "C11_xml_lex": "proved: the reader's lexer inverts the rendering of every well-formed token sequence",
     "C11_xml_wf": "proved (full statement): parseXML (characters XMLConverter writes) = some (docSkeleton tree) for all "
                   "trees in the domain PageOk (strings XML Char after optional CONTROL stripping, formatted numbers "
@@ -309,8 +317,52 @@ def mk_laparams(d: Optional[Dict[str, Any]]):
 
 # ------------------------------------------------------------------ implementation adapters
 
+NUMLOG: List[Tuple[str, Any]] = []      # raw numbers behind the formatted fields of the last dumps
+
+
 def fmt_bbox(b) -> str:
+    if len(NUMLOG) < 4000:
+        NUMLOG.append(("bbox", tuple(b)))
     return ",".join("%.3f" % v for v in b)
+
+
+def fmt_f3(v) -> str:
+    if len(NUMLOG) < 4000:
+        NUMLOG.append(("f3", v))
+    return "%.3f" % v
+
+
+def fmt_d(v) -> str:
+    if len(NUMLOG) < 4000:
+        NUMLOG.append(("d", v))
+    return "%d" % v
+
+
+def srat(v) -> Optional[str]:
+    """sign + exact magnitude of a finite int/float for the Lean formatter model"""
+    import math
+    from fractions import Fraction
+    if isinstance(v, bool) or not isinstance(v, (int, float)):
+        return None
+    if isinstance(v, float) and not math.isfinite(v):
+        return None
+    neg = v < 0 if isinstance(v, int) else math.copysign(1.0, v) < 0
+    return ("- " if neg else "+ ") + C.frac_str(Fraction(abs(v)))
+
+
+def fmt_request(kind: str, v) -> Optional[Tuple[str, str, str, Any]]:
+    """A driver request that ties the Lean formatter model to Python's % operator / pdfminer's bbox2str."""
+    if kind == "bbox":
+        from pdfminer.utils import bbox2str
+        parts = [srat(x) for x in v]
+        if None in parts or len(parts) != 4:
+            return None
+        return ("fmt.bbox " + " ".join(parts), "tie", bbox2str(v), {"op": "fmt.bbox", "value": [repr(x) for x in v]})
+    r = srat(v)
+    if r is None:
+        return None
+    exp = ("%.3f" % v) if kind == "f3" else ("%d" % v)
+    return (f"fmt.{kind} {r}", "tie", exp, {"op": "fmt." + kind, "value": repr(v)})
 
 
 def dump_item(it) -> List[Any]:
@@ -320,34 +372,34 @@ def dump_item(it) -> List[Any]:
         groups = None
         if it.groups is not None:
             groups = [dump_group(g) for g in it.groups]
-        return ["page", str(it.pageid), fmt_bbox(it.bbox), "%d" % it.rotate, [dump_item(c) for c in it], groups]
+        return ["page", str(it.pageid), fmt_bbox(it.bbox), fmt_d(it.rotate), [dump_item(c) for c in it], groups]
     if isinstance(it, L.LTLine):
-        return ["line", "%d" % it.linewidth, fmt_bbox(it.bbox)]
+        return ["line", fmt_d(it.linewidth), fmt_bbox(it.bbox)]
     if isinstance(it, L.LTRect):
-        return ["rect", "%d" % it.linewidth, fmt_bbox(it.bbox)]
+        return ["rect", fmt_d(it.linewidth), fmt_bbox(it.bbox)]
     if isinstance(it, L.LTCurve):
-        return ["curve", "%d" % it.linewidth, fmt_bbox(it.bbox), ",".join("%.3f,%.3f" % p for p in it.pts)]
+        return ["curve", fmt_d(it.linewidth), fmt_bbox(it.bbox), ",".join("%.3f,%.3f" % p for p in it.pts)]
     if isinstance(it, L.LTFigure):
         return ["figure", it.name, fmt_bbox(it.bbox), [dump_item(c) for c in it]]
     if isinstance(it, L.LTTextLine):
         return ["textline", fmt_bbox(it.bbox), [dump_item(c) for c in it]]
     if isinstance(it, L.LTTextBox):
-        return ["textbox", "%d" % it.index, fmt_bbox(it.bbox), isinstance(it, L.LTTextBoxVertical),
+        return ["textbox", fmt_d(it.index), fmt_bbox(it.bbox), isinstance(it, L.LTTextBoxVertical),
                 [dump_item(c) for c in it]]
     if isinstance(it, L.LTChar):
-        return ["char", it.fontname, fmt_bbox(it.bbox), it.ncs.name, str(it.graphicstate.ncolor), "%.3f" % it.size,
+        return ["char", it.fontname, fmt_bbox(it.bbox), it.ncs.name, str(it.graphicstate.ncolor), fmt_f3(it.size),
                 it.get_text()]
     if isinstance(it, L.LTAnno):
         return ["anno", it.get_text()]
     if isinstance(it, L.LTImage):
-        return ["image", "%d" % it.width, "%d" % it.height]
+        return ["image", fmt_d(it.width), fmt_d(it.height)]
     raise C.Infra("unexpected layout item " + repr(it))
 
 
 def dump_group(g) -> List[Any]:
     from pdfminer import layout as L
     if isinstance(g, L.LTTextBox):
-        return ["gbox", "%d" % g.index, fmt_bbox(g.bbox)]
+        return ["gbox", fmt_d(g.index), fmt_bbox(g.bbox)]
     if isinstance(g, L.LTTextGroup):
         return ["ggroup", fmt_bbox(g.bbox), [dump_group(c) for c in g]]
     raise C.Infra("unexpected group item " + repr(g))
@@ -379,6 +431,7 @@ class _Capture:
 
     def __init__(self):
         self.pages: List[Any] = []
+        self.exported: List[str] = []
 
     def __enter__(self):
         import pdfminer.high_level as H
@@ -393,8 +446,23 @@ class _Capture:
 
         class CapXML(self._orig[1]):
             def receive_layout(self, ltpage):
-                cap.pages.append(dump_item(ltpage))
-                return super().receive_layout(ltpage)
+                node = dump_item(ltpage)
+                iw = self.imagewriter
+                if iw is not None and not hasattr(iw, "_c11_wrapped"):
+                    orig_export = iw.export_image
+
+                    def export(image):
+                        n = orig_export(image)
+                        cap.exported.append(n)
+                        return n
+                    iw.export_image = export
+                    iw._c11_wrapped = True
+                k0 = len(cap.exported)
+                r = super().receive_layout(ltpage)
+                if iw is not None:
+                    attach_image_names(node, cap.exported[k0:])
+                cap.pages.append(node)
+                return r
         H.TextConverter, H.XMLConverter = CapText, CapXML
         return self
 
@@ -403,8 +471,39 @@ class _Capture:
         return False
 
 
-def impl_convert(pdf: bytes, la, otype: str, codec: Optional[str], strip: bool):
-    """Returns (output, tree rendered): str (text sink) when codec is None, else bytes (binary sink)."""
+def attach_image_names(node, names: List[str]) -> None:
+    """Image nodes in render order (pre-order) get the name imagewriter.export_image returned."""
+    it = iter(names)
+
+    def walk(n):
+        k = n[0]
+        if k == "image":
+            nm = next(it, None)
+            if nm is not None:
+                n.append(nm)
+        idx = {"page": 4, "figure": 3, "textline": 2, "textbox": 4}.get(k)
+        if idx is not None:
+            for c in n[idx]:
+                walk(c)
+    walk(node)
+
+
+def impl_convert(pdf: bytes, la, otype: str, codec: Optional[str], strip: bool, images: bool = False):
+    """Returns (output, tree rendered): str (text sink) when codec is None, else bytes (binary sink).
+    `images`: xml only - pass an output_dir, so that an ImageWriter exports the images and <image src=…> is written."""
+    import shutil
+    import tempfile
+    from pdfminer.high_level import extract_text_to_fp
+    if images and otype == "xml":
+        d = tempfile.mkdtemp(prefix="c11img")
+        try:
+            return _impl_convert(pdf, la, otype, codec, strip, os.path.join(d, "out"))
+        finally:
+            shutil.rmtree(d, ignore_errors=True)
+    return _impl_convert(pdf, la, otype, codec, strip, None)
+
+
+def _impl_convert(pdf: bytes, la, otype: str, codec: Optional[str], strip: bool, outdir: Optional[str]):
     from pdfminer.high_level import extract_text_to_fp
     if codec is None:
         fp: Any = io.StringIO()
@@ -412,6 +511,8 @@ def impl_convert(pdf: bytes, la, otype: str, codec: Optional[str], strip: bool):
     else:
         fp = io.BytesIO()
         kw = {"codec": codec}
+    if outdir:
+        kw["output_dir"] = outdir
     with _Capture() as cap:
         extract_text_to_fp(io.BytesIO(pdf), fp, output_type=otype, laparams=mk_laparams(la), strip_control=strip, **kw)
     return fp.getvalue(), cap.pages
@@ -480,6 +581,8 @@ def tree_strings(tree) -> List[str]:
         elif k == "char":
             out.append(n[1])
             out.append(n[6])
+        elif k == "image" and len(n) > 3:
+            out.append(n[3])
     for p in tree:
         walk(p)
     return out
@@ -507,6 +610,8 @@ def opaque_ok(tree) -> bool:
             return all(is_xml_char(ch) and ch not in "&<\r" for ch in n[1])
         if k == "ggroup":
             return plain(n[1]) and all(walk(c) for c in n[2])
+        if k == "image":
+            return plain(n[1]) and plain(n[2])
         return all(plain(x) for x in n[1:])
     return all(walk(p) for p in tree)
 
@@ -550,7 +655,10 @@ def expected_xml(tree, strip: bool):
         if k == "anno":
             return ("text", {}, n[1], [])
         if k == "image":
-            return ("image", {"width": n[1], "height": n[2]}, "", [])
+            a = {"width": n[1], "height": n[2]}
+            if len(n) > 3:
+                a["src"] = name(n[3])
+            return ("image", a, "", [])
         raise C.Infra("bad node")
     return ("pages", {}, "", [el(p) for p in tree])
 
@@ -624,7 +732,7 @@ def node_words(n, out: List[str]) -> None:
     elif k == "anno":
         out += ["anno", cps(n[1])]
     elif k == "image":
-        out += ["image", cps(n[1]), cps(n[2])]
+        out += ["image", cps(n[1]), cps(n[2])] if len(n) == 3 else ["imagesrc", cps(n[3]), cps(n[1]), cps(n[2])]
     elif k == "gbox":
         out += ["gbox", cps(n[1]), cps(n[2])]
     elif k == "ggroup":
@@ -645,7 +753,7 @@ def tree_line(op: str, tree, *args: str) -> str:
 
 # ------------------------------------------------------------------ one case
 
-CODECS = ["utf-8", "utf-16", "utf-16-le", "latin-1", "cp1252"]
+CODECS = ["utf-8", "utf-16", "utf-16-le", "latin-1", "cp1252", "utf-32", "utf-8-sig"]
 
 
 def representable(s: str, codec: str) -> bool:
@@ -678,12 +786,26 @@ def hexs(s: str) -> str:
     return s.encode("utf-8", "surrogatepass").hex() or "-"
 
 
-def eval_case(spec, la, strip: bool, codecs: List[str], want_model: bool = True) -> CaseResult:
+def eval_case(spec, la, strip: bool, codecs: List[str], want_model: bool = True,
+              only: Optional[str] = None, images: bool = False) -> CaseResult:
     """Evaluate the property on the implementation for one document / laparams / strip choice over both
-    output types, the text sink and the given binary codecs; collect model requests."""
+    output types, the text sink and the given binary codecs; collect model requests.
+    `only` ("text" | "extract_text" | "xml") restricts the evaluation to one output path (used by the shrinker)."""
     res = CaseResult()
-    cfg = {"laparams": la, "strip_control": strip}
+    cfg = {"laparams": la, "strip_control": strip, "images": images}
     pdf = build_pdf(spec)
+
+    def no_src(node):
+        """projection: the reference tree from extract_pages knows no exported names"""
+        k = node[0]
+        if k == "image":
+            return node[:3]
+        idx = {"page": 4, "figure": 3, "textline": 2, "textbox": 4}.get(k)
+        if idx is None:
+            return node
+        n = list(node)
+        n[idx] = [no_src(c) for c in node[idx]]
+        return n
 
     def fail(what, expected, got, **tags):
         tags.setdefault("strip", strip)
@@ -691,11 +813,19 @@ def eval_case(spec, la, strip: bool, codecs: List[str], want_model: bool = True)
                                       expected, got, tags))
 
     try:
+        del NUMLOG[:]
         ref = impl_tree(pdf, la)
     except Exception as e:  # noqa: BLE001
         fail("building the layout tree raised " + type(e).__name__, "a tree", repr(e), stage="tree")
         return res
     res.tree = ref
+    if want_model and only is None:
+        # the numbers behind the reference tree: a sample goes to the Lean formatter model
+        step = max(1, len(NUMLOG) // 12)
+        for kind, v in NUMLOG[::step][:14]:
+            q = fmt_request(kind, v)
+            if q is not None:
+                res.req.append(q)
     res.nglyph = len(tree_strings(ref))
     res.legal = all(is_xml_char(ch) for s in tree_strings(ref) for ch in s)
     def canon(page, proj):
@@ -727,7 +857,7 @@ def eval_case(spec, la, strip: bool, codecs: List[str], want_model: bool = True)
 
     # ---- text, text sink
     text_runs: Dict[Optional[str], Tuple[str, Any]] = {}
-    for codec in [None] + list(codecs):
+    for codec in ([None] + list(codecs)) if only in (None, "text") else []:
         try:
             out, tree = impl_convert(pdf, la, "text", codec, strip)
         except Exception as e:  # noqa: BLE001
@@ -756,6 +886,8 @@ def eval_case(spec, la, strip: bool, codecs: List[str], want_model: bool = True)
                      otype="text", codec=codec, stage="sink")
     # extract_text plumbing (default LAParams when None)
     try:
+        if only not in (None, "extract_text"):
+            raise StopIteration
         et, tree = impl_extract_text(pdf, la)
         if et != spec_text(tree):
             fail("extract_text differs from the in-order text of the layout tree", spec_text(tree), et, otype="text",
@@ -767,16 +899,19 @@ def eval_case(spec, la, strip: bool, codecs: List[str], want_model: bool = True)
             if [canon(p, text_only) for p in tree] != [canon(p, text_only) for p in dflt]:
                 fail("extract_text(laparams=None) did not lay out with the default LAParams", "same tree",
                      "different tree", stage="plumbing")
+    except StopIteration:
+        pass
     except Exception as e:  # noqa: BLE001
         fail("extract_text raised " + type(e).__name__, "text", repr(e), otype="text", stage="convert")
 
     # ---- xml
     xml_text_sink: Optional[str] = None
-    for codec in [None] + list(codecs):
+    xml_text_tree: Any = None
+    for codec in ([None] + list(codecs)) if only in (None, "xml") else []:
         if codec is not None and (xml_text_sink is None or not representable(xml_text_sink, codec)):
             continue
         try:
-            out, tree = impl_convert(pdf, la, "xml", codec, strip)
+            out, tree = impl_convert(pdf, la, "xml", codec, strip, images)
         except Exception as e:  # noqa: BLE001
             fail(f"xml conversion raised {type(e).__name__}" + (" (binary sink)" if codec else ""), "xml output",
                  repr(e), otype="xml", codec=codec, stage="convert")
@@ -789,7 +924,7 @@ def eval_case(spec, la, strip: bool, codecs: List[str], want_model: bool = True)
             in_domain = False
             res.opaque_bad = True
         if codec is None:
-            same_hierarchy(tree, ident, "xml output")
+            same_hierarchy(tree, no_src, "xml output")
             sf = "s" if strip else "k"
             inp = {"spec": spec, **cfg}
             res.req.append((tree_line("xml", tree, sf, "-"), "tie", hexs(out), {"op": "xml", **inp}))
@@ -797,11 +932,23 @@ def eval_case(spec, la, strip: bool, codecs: List[str], want_model: bool = True)
                 res.req.append((tree_line("xmlcheck", tree, sf, "-"), "thm", "ok", {"op": "xmlcheck", **inp}))
                 res.req.append((tree_line("parse", tree, sf, hexs(out)), "spec", "ok", {"op": "parse", **inp}))
             chars = xml_text_sink = out
+            xml_text_tree = tree
         else:
             try:
                 chars = out.decode(codec)
-                res.req.append((tree_line("xml", tree, "s" if strip else "k", cps(codec)), "tie", hexs(chars),
-                                {"op": "xml", "spec": spec, "codec": codec, **cfg}))
+                sf = "s" if strip else "k"
+                inp = {"spec": spec, "codec": codec, **cfg}
+                res.req.append((tree_line("xml", tree, sf, cps(codec)), "tie", hexs(chars), {"op": "xml", **inp}))
+                if in_domain:
+                    res.req.append((tree_line("parse", tree, sf, hexs(chars)), "spec", "ok", {"op": "parse", **inp}))
+                if tree == xml_text_tree:
+                    # same hierarchy rendered: apart from the declared encoding the characters must be the same
+                    want = xml_text_sink.replace('<?xml version="1.0" ?>',
+                                                 '<?xml version="1.0" encoding="%s" ?>' % codec, 1)
+                    if chars != want:
+                        fail("binary sink decoded with its codec differs from the text sink (xml output)",
+                             first_diff(hexs(want), hexs(chars)), "see expected", otype="xml", codec=codec,
+                             stage="sink")
             except UnicodeError as e:
                 if in_domain:
                     fail("binary sink cannot be decoded with its codec (xml output)", "decodable bytes", str(e),
@@ -824,7 +971,7 @@ def check_xml(chars: str, tree, strip: bool, fail, codec) -> None:
         return
     body = chars[m.end():]
     try:
-        root = ET.fromstring(body.encode("utf-8"))
+        root = ET.fromstring(b'<?xml version="1.0" encoding="utf-8" ?>\n' + body.encode("utf-8"))
     except ET.ParseError as e:
         fail("XML output is not well-formed", "well-formed XML", f"{e}", otype="xml", stage="wf", codec=codec,
              **xml_tags(tree, strip))
@@ -928,13 +1075,29 @@ def shrink_spec(spec, still) -> Dict[str, Any]:
     return cur
 
 
-def minimise(f: C.Failure) -> C.Failure:
+def path_of(f: C.Failure) -> Optional[str]:
+    """Which output path a failure belongs to (the shrinker re-evaluates only that one)."""
+    if f.what.startswith("extract_text") or f.tags.get("stage") == "extract_text":
+        return "extract_text"
+    if f.tags.get("otype") == "xml" or f.what.startswith("xml"):
+        return "xml"
+    if f.tags.get("otype") == "text" or f.what.startswith("text"):
+        return "text"
+    return None
+
+
+def minimise(f: C.Failure, deadline: float) -> C.Failure:
+    import time
     inp = f.input
     spec, la, strip = inp["spec"], inp["laparams"], inp["strip_control"]
     codec = inp.get("codec")
+    only = path_of(f)
 
     def same(spec2) -> Optional[C.Failure]:
-        r = eval_case(spec2, la, strip, [codec] if codec else [], want_model=False)
+        if time.time() > deadline:
+            return None
+        r = eval_case(spec2, la, strip, [codec] if codec else [], want_model=False, only=only,
+                      images=bool(inp.get("images")))
         for g in r.failures:
             if g.what == f.what and g.tags.get("codec") == f.tags.get("codec"):
                 return g
@@ -944,19 +1107,38 @@ def minimise(f: C.Failure) -> C.Failure:
     return g if g is not None else f
 
 
+def report(ctx: C.Ctx, f: C.Failure) -> None:
+    """Shrink the first failure of each kind (that is the one vcheck writes as replay), within a total
+    time budget; later failures of a kind are recorded as found."""
+    import time
+    st = getattr(ctx, "_c11_shrink", None)
+    if st is None:
+        st = {"kinds": set(), "spent": 0.0}
+        ctx._c11_shrink = st
+    budget = 20.0 if ctx.tier == "quick" else 240.0
+    if f.what not in st["kinds"] and st["spent"] < budget and f.tags.get("stage") != "leanparse" \
+            and f.tags.get("stage") != "spectext":
+        st["kinds"].add(f.what)
+        t0 = time.time()
+        f = minimise(f, t0 + min(8.0, budget - st["spent"]))
+        st["spent"] += time.time() - t0
+    ctx.fail(f)
+
+
 # ------------------------------------------------------------------ run / replay
 
-def run_case(ctx: C.Ctx, spec, la, strip, codecs, branch=None, collect=None) -> None:
-    r = eval_case(spec, la, strip, codecs)
+def run_case(ctx: C.Ctx, spec, la, strip, codecs, branch=None, collect=None, images=False) -> None:
+    r = eval_case(spec, la, strip, codecs, images=images)
     nontriv = getattr(r, "nglyph", 0) > 0 and (special_count(spec) > 0 or not getattr(r, "legal", True)
                                                or spec.get("profile") != "plain")
-    ctx.case(("c11", json.dumps(spec, sort_keys=True), json.dumps(la, sort_keys=True), strip, tuple(codecs)), nontriv,
+    ctx.case(("c11", json.dumps(spec, sort_keys=True), json.dumps(la, sort_keys=True), strip, tuple(codecs), images), nontriv,
              sample={"profile": spec.get("profile"), "laparams": la, "strip_control": strip, "codecs": codecs,
                      "fonts": [f["name"] for f in spec["fonts"]], "xobjs": [x["name"] for x in spec["xobjs"]],
                      "pages": len(spec["pages"])},
              branch=branch or ("profile:" + str(spec.get("profile"))))
     ctx.branch("laparams:" + json.dumps(la, sort_keys=True))
     ctx.branch("strip:" + str(strip))
+    ctx.branch("imagewriter:" + str(images))
     for c in codecs:
         ctx.branch("codec:" + c)
     if hasattr(r, "tree"):
@@ -971,7 +1153,7 @@ def run_case(ctx: C.Ctx, spec, la, strip, codecs, branch=None, collect=None) -> 
         if key in seen:
             continue
         seen.add(key)
-        ctx.fail(minimise(f))
+        report(ctx, f)
     if collect is not None:
         collect.append(r)
 
@@ -1001,7 +1183,9 @@ def flush_model(ctx: C.Ctx, results: List[CaseResult]) -> None:
         ctx.branch(kind + ":" + inp["op"])
         if got == exp:
             continue
-        if kind == "tie":
+        if kind == "tie" and inp["op"].startswith("fmt."):
+            ctx.disagree(inp["op"], inp, exp, got)
+        elif kind == "tie":
             ctx.disagree(inp["op"], inp, first_diff(exp, got), "model differs")
         elif kind == "thm":
             ctx.disagree(inp["op"], inp, "theorem instance (Lean reader on the model output = skeleton)", got)
@@ -1041,12 +1225,45 @@ def replay(ctx: C.Ctx, doc, from_corpus: bool = False) -> None:
     codec = inp.get("codec")
     coll: List[CaseResult] = []
     run_case(ctx, inp["spec"], inp.get("laparams"), bool(inp.get("strip_control")), [codec] if codec else [],
-             branch="corpus" if from_corpus else "replay", collect=coll)
+             branch="corpus" if from_corpus else "replay", collect=coll, images=bool(inp.get("images")))
     flush_model(ctx, coll)
+
+
+def fmt_probes(ctx: C.Ctx) -> None:
+    """Formatter model vs Python on rounding ties (k/16 with odd k: x*1000 ends in .5), signed zeros, tiny, huge
+    and random values."""
+    if ctx.driver is None:
+        return
+    rng = ctx.rng
+    vals: List[Any] = [0.0, -0.0, 0.0625, 0.1875, 0.3125, 2.0625, -0.0625, 1e-4, -1e-4, 4.9999e-4, 5.0001e-4, 0.9995,
+                       0.99949, 1e15 + 0.5, 123456.7895, 1e-300, 7, -7, 0, 2.5, -2.5, 0.5, -0.5, 1e22, 999.9995]
+    for _ in range(ctx.n(150, 5000)):
+        m = rng.random()
+        if m < 0.3:
+            vals.append(rng.randint(-800, 800) + rng.choice([1, 3, 5, 7, 9, 11, 13, 15]) / 16.0)
+        elif m < 0.6:
+            vals.append(round(rng.uniform(-1000, 1000), rng.randint(0, 6)))
+        elif m < 0.8:
+            vals.append(rng.uniform(-1, 1) * 10 ** rng.randint(-8, 12))
+        else:
+            vals.append(rng.randint(-10 ** 6, 10 ** 6))
+    reqs = []
+    for v in vals:
+        reqs.append(fmt_request("f3", v))
+        reqs.append(fmt_request("d", v))
+    for i in range(0, len(vals) - 3, 4):
+        reqs.append(fmt_request("bbox", tuple(vals[i:i + 4])))
+    reqs = [q for q in reqs if q is not None]
+    outs = ctx.driver.ask([q[0] for q in reqs])
+    for (line, kind, exp, inp), got in zip(reqs, outs):
+        ctx.branch("tie:" + inp["op"])
+        if got != exp:
+            ctx.disagree(inp["op"], inp, exp, got)
 
 
 def run(ctx: C.Ctx) -> None:
     run_corpus(ctx)
+    fmt_probes(ctx)
     rng = ctx.rng
     n = ctx.n(300, 8000)
     coll: List[CaseResult] = []
@@ -1055,12 +1272,16 @@ def run(ctx: C.Ctx) -> None:
         if not ctx.time_left():
             ctx.notes.append(f"stopped after {i} documents (time budget)")
             break
+        if len(ctx.failures) >= 40:
+            ctx.notes.append(f"stopped after {i} documents: {len(ctx.failures)} failing inputs in hand")
+            break
         spec = gen_spec(rng, profiles[i % len(profiles)] if i < 3 * len(profiles) else None)
         la = LAPARAMS_CHOICES[i % len(LAPARAMS_CHOICES)] if i < 2 * len(LAPARAMS_CHOICES) else rng.choice(LAPARAMS_CHOICES)
         strip = (i % 3 == 1) if i < 12 else rng.random() < 0.4
         codecs = [CODECS[i % len(CODECS)], rng.choice(CODECS)]
         codecs = sorted(set(codecs))
-        run_case(ctx, spec, la, strip, codecs, collect=coll)
+        images = any(x["kind"] == "image" for x in spec["xobjs"]) and rng.random() < 0.5
+        run_case(ctx, spec, la, strip, codecs, collect=coll, images=images)
         if len(coll) >= 50:
             flush_model(ctx, coll)
             coll = []
